@@ -20,7 +20,8 @@ func init() {
 			"C13.a DOM: inside the statement loop, from every statement-level operation (DB method returning an error) each path to the next iteration passes either the nil edge of that operation's error or a call of the abort closure (the closure that rolls the transaction back and clears it); after an abort closure call, the edge on which it reports 'abort' cannot reach the next iteration. " +
 			"C13.b DOM: tx.Commit is reached only on the non-nil edge of the transaction variable (cleared by the abort), and a Rollback is deferred right after BeginTx. " +
 			"C13.c ORD: from every statement-level operation each path to the next iteration or the loop exit passes an append to the result slice (one result per executed statement, in loop order). " +
-			"C13.d DOM: every path from entry to the statement loop on which Request.Transaction is not known false passes BeginTx, and the executor then runs statements on the transaction.",
+			"C13.d DOM: every path from entry to the statement loop on which Request.Transaction is not known false passes BeginTx, and the executor then runs statements on the transaction. " +
+			"C13.e DOM: the statement helpers report a statement that SQLite refused through their error result, which is what the executors' abort rule (C13.a) tests — from the non-nil edge of ExecContext's / QueryContext's error in executeStmtWithConn / queryStmtWithConn every return carries a value that is not the nil constant (also not through a local closure that always returns nil).",
 		NotCovered: []string{"SQLite's own atomicity of a single statement", "RETURNING row contents and per-statement result values", "behaviour of RollbackOnError outside an explicit transaction beyond issuing ROLLBACK"},
 		Run:        runC13,
 	})
@@ -93,6 +94,7 @@ func inLoop(header, b *ssa.BasicBlock) bool {
 }
 
 func runC13(c *core.Ctx) {
+	c13e(c)
 	execs := 0
 	for _, name := range []string{"(*DB).executeWithConn", "(*DB).RequestWithContext"} {
 		if fn := c.Fn("C13.a", "db", name); fn != nil {
